@@ -236,7 +236,18 @@ def check_witness(w):
     r = ordered_inside(toks, s, 0, n)
     if r:
         return True, r
-    if len(cands) == 2:
+    if w.get('nested'):
+        # a parse_inner parent whose parse group holds both candidates: the pair rule applies inside it
+        P = [c for c in cands if c[6] == 0][0]
+        x, y = sorted(sorted([c for c in cands if c[6] != 0], key=lambda c: (c[6], c[7])), key=lambda c: c[0])
+        exp = expected_pair(x, y)
+        if exp and exp[0][3] == 'Y':
+            exp = [['tok', x[6], x[7], [['tok', y[6], y[7], []]]]]
+        exp = [['tok', P[6], P[7], exp]]
+        got = strip_raw(observe(toks, s))
+        if got != exp:
+            return True, 'pair rule inside a parent: expected %r, got %r' % (exp, got)
+    elif len(cands) == 2:
         # find_tokens: class order, match order, then a stable sort by start
         x, y = sorted(sorted(cands, key=lambda c: (c[6], c[7])), key=lambda c: c[0])
         exp = expected_pair(x, y)
@@ -265,6 +276,11 @@ def _cases(ctx):
     cases = []
     for cands in pair_cases(n_pairs, groups):
         cases.append((cands, n_pairs + 1))
+    for cands in pair_cases(n_pairs if ctx.thorough else 2, groups):
+        x, y = cands
+        P = [0, n_pairs + 3, 1, n_pairs + 2, 5, True, 0, 0]
+        sh = lambda c, k: [c[0] + 1, c[1] + 1, c[2] + 1, c[3] + 1, c[4], c[5], k, 0]
+        cases.append(([P, sh(x, 1), sh(y, 2)], n_pairs + 4, True))
     for _ in range(ctx.budget(4000, 60000)):
         n = rng.randint(1, 14)
         cases.append((random_set(rng, n), n))
@@ -274,9 +290,10 @@ def _cases(ctx):
 def units(ctx):
     cases = _cases(ctx)
     ctx._c16_cases = cases
-    reqs = [{'op': 'span.tokenize', 'n': n, 'cands': cands} for cands, n in cases]
+    reqs = [{'op': 'span.tokenize', 'n': c[1], 'cands': c[0]} for c in cases]
     model = driver_batch(reqs)
-    for (cands, n), m in zip(cases, model):
+    for c, m in zip(cases, model):
+        cands, n = c[0], c[1]
         try:
             toks, s = run_impl(cands, n)
             impl = observe(toks, s)
@@ -296,9 +313,13 @@ def explore(ctx, seeds):
         for _ in range(20000 * ctx.scale):
             n = rng.randint(1, 16)
             cases.append((random_set(rng, n), n))
-    for cands, n in cases:
+    for c in cases:
+        cands, n = c[0], c[1]
         w = {'cands': cands, 'n': n}
-        ctx.explored_case(w, kind='pair' if len(cands) == 2 else 'set', nontrivial=nontrivial(cands))
+        if len(c) > 2:
+            w['nested'] = True
+        ctx.explored_case(w, kind='nested' if len(c) > 2 else 'pair' if len(cands) == 2 else 'set',
+                          nontrivial=nontrivial(cands))
         fails, detail = check_witness(w)
         if fails:
             ctx.violation(detail, w)
